@@ -24,7 +24,7 @@ static std::mutex g_tidm;
 static std::map<long, int> g_th_of_tid;
 static int th_of(long tid) { std::lock_guard<std::mutex> g(g_tidm); auto i = g_th_of_tid.find(tid); return i == g_th_of_tid.end() ? 0 : i->second; }
 static std::string g_long_mod = "mod" + std::string(1200, 'L');      // a module name longer than the 1 KiB scratch buffer of AsyncSink
-static const char *MODS[] = {"modA", "modB", "modC", g_long_mod.c_str()};
+static const char *MODS[] = {"modA", "modB", "modC", g_long_mod.c_str(), "modA.sub", "mod"};      // the last two: a rule's name is a strict prefix of another module's name, and the other way round
 static const char *FUNCS[] = {"fnOne", "fnTwo"};
 static const char *FILES[] = {"/src/dir/alpha.cpp", "beta.cpp", "/x/gamma.cpp"};
 static const char *BASES[] = {"alpha.cpp", "beta.cpp", "gamma.cpp"};
@@ -225,6 +225,7 @@ static void run_execution(vh::Rng &rng, uint64_t seed, int xno) {
         // thresholds and maximum length
         // (100 KiB texts through a pipe of 1..64-byte buffers only cost time: one buffer hand-over per few bytes)
         if (!en[2] && !en[3]) { g_dyn_idx = (int)rng.below(3); strcpy(g_dynmod, MODS[g_dyn_idx]); }     // the name behind the shared address changes
+        if (rng.chance(30)) LogRemovePrintfFunc(0x7fff0000u + (uint32_t)rng.below(1000));     // removing a channel that does not exist changes nothing
         size_t mx = (size_t)rng.pick(pc.buff_size <= 64 ? std::vector<long long>{5, 20, 100, 2047, 2048, 2049, 5000} : std::vector<long long>{5, 20, 100, 2047, 2048, 2049, 5000, 102400, 102401, 150000});
         LogSetMaxLength(mx);
         std::string cfg = J("config") + kv("max", (long long)mx) + ",\"sinks\":[";
@@ -265,7 +266,7 @@ static void run_execution(vh::Rng &rng, uint64_t seed, int xno) {
             std::vector<CallSpec> calls;
             int n = overlap ? (int)rng.range(20, 60) : (int)rng.range(3, 30);
             for (int i = 0; i < n; ++i) {
-                CallSpec c; c.lvl = (int)rng.range(-1, 8); c.mod = rng.chance(3) ? 3 : (int)rng.below(3); c.fn = (int)rng.below(2); c.file = (int)rng.below(3); c.line = (int)rng.range(1, 9999);
+                CallSpec c; c.lvl = (int)rng.range(-1, 8); c.mod = rng.chance(3) ? 3 : rng.chance(15) ? 4 + (int)rng.below(2) : (int)rng.below(3); c.fn = (int)rng.below(2); c.file = (int)rng.below(3); c.line = (int)rng.range(1, 9999);
                 switch (rng.below(8)) {
                     case 0: c.len = 0; break;
                     case 1: c.len = (size_t)rng.range(1, 30); break;
